@@ -272,6 +272,7 @@ func Supervise(o *SupOpts) int {
 	newVio := 0
 	knownSeen := map[string]any{}
 	vioSummary := map[string]any{}
+	os.RemoveAll(filepath.Join(o.Root, "replays", o.Prop)) // replay files of earlier runs are stale
 	os.MkdirAll(filepath.Join(o.Root, "replays", o.Prop), 0o755)
 	for _, s := range sigs {
 		v := a.vio[s]
